@@ -276,3 +276,19 @@ Example demo_tallies :
                     count q_fail (subtree (run demo_history) (g_batch g) (g_id g));
                     count q_canc (subtree (run demo_history) (g_batch g) (g_id g))])) (groups (run demo_history)).
 Proof. vm_compute. reflexivity. Qed.
+
+(** Non-vacuity of [reach_commit_reopens]: the second update of the demo history is open, and its commit succeeds. *)
+Example demo_reopen :
+  let ops := firstn 11 demo_history in
+  good_history ops /\
+  exists up, find_update (run ops) 1 2 = Some up /\ u_committed up = false /\
+             committed (fst (step (run ops) (Commit 1 2 1))) 1 2 = true /\ 0 < n_sub_upd (run ops) 1 2 0.
+Proof.
+  cbv zeta. split; [apply good_fromb_sound; vm_compute; reflexivity|].
+  eexists. split; [vm_compute; reflexivity|]. split; [reflexivity|]. split; vm_compute; reflexivity.
+Qed.
+
+(** Non-vacuity of [counted_once]: job 1 of the demo history is finished (Failed) at the end. *)
+Example demo_late_report :
+  exists x, find_job (run demo_history) 1 1 = Some x /\ terminal (j_state x) = true.
+Proof. eexists. split; vm_compute; reflexivity. Qed.
